@@ -483,6 +483,7 @@ register(
     oracle=O.oracle_c11,
     stats=O.stats_c11,
     level="exploration",
+    tiers={"quick": {"runs": 18000}, "thorough": {"runs": 600000}},
     rule=("machines dense in shallow/deep history children (under compound and parallel parents, any depth, with and without default "
           "targets) and transitions targeting them; the harness records, from entry/exit markers, what was active under each "
           "history-owning parent at its last exit and computes the expected restored configuration with its own default-descent "
